@@ -93,7 +93,7 @@ pub fn run(cfg: &Cfg) -> Report {
     let mut orders = std::collections::HashSet::new();
 
     // (1) exhaustive event orders for small configurations
-    let n_small = cfg.n(if miri { 3 } else { 160 }, 3000);
+    let n_small = if miri { cfg.n(2, 8) } else { cfg.n(400, 6000) };
     for k in 0..n_small {
         let nconn = if miri { rng.range(1, 2) } else { rng.range(1, 3) };
         let mut scn = Scenario::default();
@@ -108,7 +108,7 @@ pub fn run(cfg: &Cfg) -> Report {
         let eof: Vec<bool> = (0..nconn).map(|_| rng.chance(1, 3)).collect();
         let ch = chains(&scn, &eof);
         let total = count_interleavings(&ch.iter().map(|c| c.len()).collect::<Vec<_>>());
-        let cap = if miri { 12 } else { 2000 };
+        let cap = if miri { 6 } else { 2000 };
         if total <= cap {
             interleavings(&ch, &mut |order| {
                 scn.steps = order.iter().map(|e| Step { ev: e.clone(), mode: Mode::Quiesce }).collect();
@@ -132,7 +132,7 @@ pub fn run(cfg: &Cfg) -> Report {
     }
 
     // (2) seeded random: up to 4 connections x 5 calls, arbitrary cuts, batched and in-handle arrivals
-    let n_rand = cfg.n(if miri { 24 } else { 30_000 }, 3_000_000);
+    let n_rand = if miri { cfg.n(2, 8) } else { cfg.n(400_000, 12_000_000) };
     for k in 0..n_rand {
         let nconn = rng.range(1, 4);
         let mut scn = Scenario::default();
